@@ -74,6 +74,12 @@ class Gen:
             lib["classes"].append({"name": "TK", "kind": "type", "alias": {"base": "Real", "mods": am}})
             xtype = "TK"
             self.tags.add("level:type-definition")
+            if r.random() < 0.4:
+                # a type defined from the type (type TK2 = TK(...)): one more, higher level below the declaration
+                am2 = {a: self.lit() for a in r.sample(NUM_ATTRS, r.randint(0, 2))}
+                lib["classes"].append({"name": "TK2", "kind": "type", "alias": {"base": "TK", "mods": am2}})
+                xtype = "TK2"
+                self.tags.add("level:type-definition-from-type-definition")
         ambiguous = r.random() < 0.6      # the parameter name r exists at every level
         pname = (lambda lvl: "r") if ambiguous else (lambda lvl: "r" + lvl)
         if ambiguous:
@@ -136,8 +142,8 @@ class Gen:
         if r.random() < 0.25 and depth >= 1 and not repeat:
             # the modified classes live in a package; the first enclosing (wrapper) class has the same
             # short name as the library class it instantiates (Lib.S inside a top-level S)
-            inner = [c for c in lib["classes"] if c["name"] in ("TK", "S", "E", "E2")]
-            outer = [c for c in lib["classes"] if c["name"] not in ("TK", "S", "E", "E2")]
+            inner = [c for c in lib["classes"] if c["name"] in ("TK", "TK2", "S", "E", "E2")]
+            outer = [c for c in lib["classes"] if c["name"] not in ("TK", "TK2", "S", "E", "E2")]
             first_wrapper = outer[0]
             target = first_wrapper["comps"][1]["type"]          # S, E or E2
             for c in inner:
